@@ -33,24 +33,24 @@ fn v64(t: &Tree) -> Option<Vec<i64>> {
 }
 
 /// draws from a distribution over values, tallied
-fn tally<D: Distribution<i64>>(d: &D, n: usize, rng: &mut Sm) -> Tree {
+fn tally<D: Distribution<i64>>(d: &D, n: usize, rng: &mut Sm, key: &dyn Fn(i64) -> i64) -> Tree {
     let mut h: BTreeMap<i64, u64> = BTreeMap::new();
     for _ in 0..n {
-        *h.entry(d.sample(rng)).or_insert(0) += 1;
+        *h.entry(key(d.sample(rng))).or_insert(0) += 1;
     }
     L(h.into_iter().map(|(v, k)| tl![a(v), a(k)]).collect())
 }
-fn tally_ref<'a, D: Distribution<&'a i64>>(d: &D, n: usize, rng: &mut Sm) -> Tree {
+fn tally_ref<'a, D: Distribution<&'a i64>>(d: &D, n: usize, rng: &mut Sm, key: &dyn Fn(i64) -> i64) -> Tree {
     let mut h: BTreeMap<i64, u64> = BTreeMap::new();
     for _ in 0..n {
-        *h.entry(*d.sample(rng)).or_insert(0) += 1;
+        *h.entry(key(*d.sample(rng))).or_insert(0) += 1;
     }
     L(h.into_iter().map(|(v, k)| tl![a(v), a(k)]).collect())
 }
 macro_rules! res {
-    ($r:expr, $n:expr, $rng:expr, $t:ident) => {
+    ($r:expr, $n:expr, $rng:expr, $t:ident, $key:expr) => {
         match $r {
-            Ok(d) => tl![au(d.num_choices().get()), $t(&d, $n, $rng)],
+            Ok(d) => tl![au(d.num_choices().get()), $t(&d, $n, $rng, $key)],
             Err(_) => tl![A(-7)],
         }
     };
@@ -76,29 +76,29 @@ macro_rules! with_array {
 }
 
 pub const NFLAVOURS: usize = 15;
-fn choice(fl: usize, src: &Vec<i64>, n: usize, rng: &mut Sm) -> Option<Tree> {
+fn choice(fl: usize, src: &Vec<i64>, n: usize, rng: &mut Sm, key: &dyn Fn(i64) -> i64) -> Option<Tree> {
     Some(match fl {
-        0 => res!(IntoDistribution::<i64>::into_distribution(src.clone()), n, rng, tally),
-        1 => res!(IntoDistribution::<&i64>::into_distribution(src), n, rng, tally_ref),
-        2 => res!(IntoDistribution::<i64>::into_distribution(src), n, rng, tally),
-        3 => res!(ToDistribution::<i64>::to_distribution(src), n, rng, tally),
-        4 => res!(ToDistribution::<&i64>::to_distribution(src), n, rng, tally_ref),
-        5 => with_array!(src, |x| res!(IntoDistribution::<i64>::into_distribution(x), n, rng, tally)),
-        6 => with_array!(src, |x| res!(IntoDistribution::<&i64>::into_distribution(&x), n, rng, tally_ref)),
-        7 => with_array!(src, |x| res!(IntoDistribution::<i64>::into_distribution(&x), n, rng, tally)),
-        8 => with_array!(src, |x| res!(ToDistribution::<i64>::to_distribution(&x), n, rng, tally)),
-        9 => with_array!(src, |x| res!(ToDistribution::<&i64>::to_distribution(&x), n, rng, tally_ref)),
-        10 => res!(IntoDistribution::<&i64>::into_distribution(&src[..]), n, rng, tally_ref),
-        11 => res!(IntoDistribution::<i64>::into_distribution(&src[..]), n, rng, tally),
-        12 => res!(ToDistribution::<&i64>::to_distribution(&src[..]), n, rng, tally_ref),
-        13 => res!(ToDistribution::<i64>::to_distribution(&src[..]), n, rng, tally),
+        0 => res!(IntoDistribution::<i64>::into_distribution(src.clone()), n, rng, tally, key),
+        1 => res!(IntoDistribution::<&i64>::into_distribution(src), n, rng, tally_ref, key),
+        2 => res!(IntoDistribution::<i64>::into_distribution(src), n, rng, tally, key),
+        3 => res!(ToDistribution::<i64>::to_distribution(src), n, rng, tally, key),
+        4 => res!(ToDistribution::<&i64>::to_distribution(src), n, rng, tally_ref, key),
+        5 => with_array!(src, |x| res!(IntoDistribution::<i64>::into_distribution(x), n, rng, tally, key)),
+        6 => with_array!(src, |x| res!(IntoDistribution::<&i64>::into_distribution(&x), n, rng, tally_ref, key)),
+        7 => with_array!(src, |x| res!(IntoDistribution::<i64>::into_distribution(&x), n, rng, tally, key)),
+        8 => with_array!(src, |x| res!(ToDistribution::<i64>::to_distribution(&x), n, rng, tally, key)),
+        9 => with_array!(src, |x| res!(ToDistribution::<&i64>::to_distribution(&x), n, rng, tally_ref, key)),
+        10 => res!(IntoDistribution::<&i64>::into_distribution(&src[..]), n, rng, tally_ref, key),
+        11 => res!(IntoDistribution::<i64>::into_distribution(&src[..]), n, rng, tally, key),
+        12 => res!(ToDistribution::<&i64>::to_distribution(&src[..]), n, rng, tally_ref, key),
+        13 => res!(ToDistribution::<i64>::to_distribution(&src[..]), n, rng, tally, key),
         14 => {
             // the macro form (non-empty by syntax): three fixed members
             if src.len() != 3 {
                 return None;
             }
             let d = ec_core::uniform_distribution_of![src[0], src[1], src[2]];
-            tl![au(d.num_choices().get()), tally(&d, n, rng)]
+            tl![au(d.num_choices().get()), tally(&d, n, rng, key)]
         }
         _ => return None,
     })
@@ -115,7 +115,18 @@ fn run(input: &Tree) -> Option<Tree> {
     let mut rng = Sm::new(seed);
     let kind = p.first()?.int()?;
     if kind == 5 {
-        return choice(p.get(1)?.usize()?, &v64(p.get(2)?)?, n, &mut rng);
+        return choice(p.get(1)?.usize()?, &v64(p.get(2)?)?, n, &mut rng, &|v| v);
+    }
+    if kind == 6 {
+        // a source of `members` members 0..members-1 (millions), tallied by residue class of the value
+        let fl = p.get(1)?.usize()?;
+        let members = p.get(2)?.i64()?;
+        let m = p.get(3)?.i64()?;
+        if !(1..=(1 << 26)).contains(&members) || !(1..=64).contains(&m) || ![0usize, 1, 2, 3, 4, 10, 11, 12, 13].contains(&fl) || p.len() != 4 {
+            return None;
+        }
+        let src: Vec<i64> = (0..members).collect();
+        return choice(fl, &src, n, &mut rng, &|v| if (0..members).contains(&v) { v % m } else { -1 });
     }
     let size = p.get(1)?.usize()?;
     let mut h: BTreeMap<(usize, bool), u64> = BTreeMap::new();
@@ -172,6 +183,15 @@ fn gen(tier: &str, rng: &mut Sm) -> Gen {
             g.inputs.push(tl![a(rng.next() >> 1), au(if s.is_empty() { 1 } else { n }), tl![A(5), au(fl), tv(s)]]);
         }
     }
-    g.meta("generator", "collection generators (Vec, Bitstring x2, Plushy, population of scored individuals) at sizes 0, 1, 2, 17, 1000; uniform choice in 15 conversion flavours (Vec / array / slice x owning / borrowing / cloning x into / to, and the macro) over empty and non-empty sources of 1..6 members, with duplicates");
+    // sources of millions of members (every Vec / slice flavour), judged by residue classes of the index
+    for (members, m) in [(3i64 << 23, 3i64), (1 << 25, 2), ((1 << 24) + 1, 5)] {
+        for fl in [0usize, 1, 2, 3, 4, 10, 11, 12, 13] {
+            if !thorough && (fl + members as usize) % 3 != 0 {
+                continue;
+            }
+            g.inputs.push(tl![a(rng.next() >> 1), au(n), tl![A(6), au(fl), a(members), a(m)]]);
+        }
+    }
+    g.meta("generator", "collection generators (Vec, Bitstring x2, Plushy, population of scored individuals) at sizes 0, 1, 2, 17, 1000; uniform choice in 15 conversion flavours (Vec / array / slice x owning / borrowing / cloning x into / to, and the macro) over empty and non-empty sources of 1..6 members, with duplicates; sources of 3*2^23, 2^25 and 2^24+1 members judged by residue classes of the chosen index");
     g
 }
